@@ -101,7 +101,7 @@ theorem Header.bytes_inj (a b : Header) (ha : a.WF) (hb : b.WF) (h : a.bytes = b
 
 theorem Header.bytes_length (a : Header) (ha : a.WF) : a.bytes.length = Gen.AccountBlockHeaderRawLen := by
   obtain ⟨h1, h2, _⟩ := ha
-  simp [Header.bytes, beBytes, leBytes_length, h1, h2, Gen.AccountBlockHeaderRawLen, Gen.HashSize]
+  simp [Header.bytes, beBytes, leBytes_length, h1, h2, Gen.AccountBlockHeaderRawLen, Gen.GnHashSize]
 
 /-! ### validators -/
 
